@@ -368,11 +368,15 @@ def keplernum_case(kind, K):
     interpolation order), 'bwd' (stop before start)"""
     ORDER = 3
     direction = -1 if kind == "bwd" else 1
-    ins = c03.EOP_IN + [("d", "int"), ("s", "real"), ("h", "pos"), ("span", "real"), ("step", "pos")]
+    ins = c03.EOP_IN + [("d", "int"), ("s", "real"), ("h", "pos"), ("span", "real"), ("step", "pos")] + \
+          ([("rho", "pos")] if kind == "adaptive" else [])
 
     def pre(v):
         p = c03.eop_pre(v) + [v["d"] >= 41317, v["d"] <= 58000, v["s"] >= 0, v["s"] < 86400, 2 * v["step"] >= v["h"]]
-        if kind == "dates_list":
+        if kind == "adaptive":
+            # the integrator shortens every step to rho * h (3/4 <= rho <= 1); output step left to its default (= h)
+            p += [v["step"] == v["h"], v["span"] >= 2 * v["h"], v["span"] < K * v["h"], 4 * v["rho"] >= 3, v["rho"] <= 1]
+        elif kind == "dates_list":
             p += [v["span"] == 3 * v["step"], 3 * v["step"] >= 2 * v["h"], 3 * v["step"] < K * v["h"]]
         elif kind == "fwd_long":
             p += [v["span"] >= 2 * v["h"], v["span"] < K * v["h"], v["span"] < K * v["step"]]
@@ -406,7 +410,10 @@ def keplernum_case(kind, K):
                 prop.step = td(v["h"])
                 prop.bodies, prop.method, prop.frame, prop.tol = [], "euler", "EME2000", None
                 prop._orbit = Sv(epoch)
-                prop._make_step = lambda orb, step: (step, Sv(orb.date + step))
+                if kind == "adaptive":
+                    prop._make_step = lambda orb, step: (td(v["h"] * v["rho"]), Sv(orb.date + td(v["h"] * v["rho"])))
+                else:
+                    prop._make_step = lambda orb, step: (step, Sv(orb.date + step))
                 prop.copy = lambda: prop
 
                 def interp(self, date):
@@ -426,6 +433,8 @@ def keplernum_case(kind, K):
                         if kind == "dates_list":
                             # an explicit list of dates (plain Python list): start + k*step, 4 points
                             gen = prop.iter(dates=[epoch + td(v["step"] * k) for k in range(4)])
+                        elif kind == "adaptive":
+                            gen = prop.iter(start=epoch, stop=stop)
                         else:
                             gen = prop.iter(start=epoch, stop=stop, step=td(v["step"]))
                         for k, o in enumerate(gen):
@@ -445,13 +454,19 @@ def keplernum_case(kind, K):
             from beyond.env.solarsystem import get_body
             epoch = c03.mk_date(env, m, 58000, 0.0, "UTC")
             h, span, step = {"fwd_long": (60.0, 1000.0, 510.0), "fwd_short": (60.0, 100.0, 55.0), "bwd": (60.0, -1000.0, 55.0),
-                             "dates_list": (60.0, 1650.0, 550.0)}[kind]
-            orb = Orbit([7e6, 0, 0, 0, 7.5e3, 0], epoch, "cartesian", "EME2000", KeplerNum(_td(seconds=h), get_body("Earth")))
+                             "dates_list": (60.0, 1650.0, 550.0), "adaptive": (120.0, 1200.0, 120.0)}[kind]
+            if kind == "adaptive":
+                orb = Orbit([6.7e6, 0, 0, 0, 9.5e3, 0], epoch, "cartesian", "EME2000",
+                            KeplerNum(_td(seconds=h), get_body("Earth"), method="dopri54", tol=1e-4))
+            else:
+                orb = Orbit([7e6, 0, 0, 0, 7.5e3, 0], epoch, "cartesian", "EME2000", KeplerNum(_td(seconds=h), get_body("Earth")))
             out = {}
             n = 0
             try:
                 if kind == "dates_list":
                     gen = orb.iter(dates=[epoch + _td(seconds=step * k) for k in range(4)])
+                elif kind == "adaptive":
+                    gen = orb.iter(start=epoch, stop=epoch + _td(seconds=span))
                 else:
                     gen = orb.iter(start=epoch, stop=epoch + _td(seconds=span), step=_td(seconds=step))
                 for k, o in enumerate(gen):
@@ -484,7 +499,8 @@ def keplernum_case(kind, K):
             r[f"t{k}"] = direction * k * step
         return r
     what = {"fwd_long": "a point beyond stop is yielded", "fwd_short": "span shorter than the interpolation order raises ValueError",
-            "bwd": "backward range raises ValueError", "dates_list": "dates given as a plain list raise AttributeError"}[kind]
+            "bwd": "backward range raises ValueError", "dates_list": "dates given as a plain list raise AttributeError",
+            "adaptive": "default output step yields the irregular nodes of an adaptive integrator"}[kind]
     return Case(f"keplernum/{kind}", ins, run, ref, pre=pre, timeout=90, maxpaths=1500, tol=1e-9, abs_tol=3e-6,
                 signature=f"KeplerNum._iter: {what}",
                 desc=f"KeplerNum iteration skeleton ({kind}) from the epoch: yields start + k*step first to last inclusive, nothing beyond "
@@ -606,7 +622,7 @@ def all_cases(tier):
             cs.append(analytical_case(sign, sk, K))
     cs += [dates_case(), ephem_case("step", K), ephem_case("nostep", K), ephem_case("dates", K), ephem_strict_case(), ephem_bwd_case(K), ephem_interleaved_case(),
            keplernum_case("fwd_long", bounds(tier)["keplernum_steps"]), keplernum_case("fwd_short", bounds(tier)["keplernum_steps"]),
-           keplernum_case("bwd", bounds(tier)["keplernum_steps"]), keplernum_case("dates_list", bounds(tier)["keplernum_steps"]),
+           keplernum_case("bwd", bounds(tier)["keplernum_steps"]), keplernum_case("dates_list", bounds(tier)["keplernum_steps"]), keplernum_case("adaptive", bounds(tier)["keplernum_steps"]),
            numiter_args_case("timedelta"), numiter_args_case("date")]
     return cs
 
